@@ -5,8 +5,11 @@
 // (the builtin object methods and the interpreter's subscript/range opcodes are
 // on the path).
 //
-// Roots: Object() and Record() (records share the object methods but route
-// Put/Delete/Erase through SuRecord).
+// Roots: Object(), Record() (records share the object methods but route
+// Put/Delete/Erase through SuRecord) and an Object() marked concurrent (as if
+// shared with another thread, so every method takes the object lock and Sort!
+// / Unique! use their unlock-while-comparing paths; a self-deadlock there
+// would show as a stall, which a watchdog turns into an infrastructure error).
 //
 // Events (one transition each, 47): Add(v) for five values (numbers, a string
 // and two objects that compare equal but are not equal - for sort stability),
@@ -42,6 +45,8 @@ import (
 	"strconv"
 	"strings"
 	"sync"
+	"sync/atomic"
+	"time"
 
 	_ "github.com/apmckinlay/gsuneido/builtin"
 	"github.com/apmckinlay/gsuneido/compile"
@@ -715,7 +720,7 @@ type caseT struct {
 	Events []string `json:"events"`
 }
 
-var rootNames = []string{"Object()", "Record()"}
+var rootNames = []string{"Object()", "Record()", "Object() marked concurrent (locking paths)"}
 
 func mkCase(root int, path []int) caseT {
 	cs := caseT{Root: root, Path: append([]int(nil), path...)}
@@ -727,10 +732,15 @@ func mkCase(root int, path []int) caseT {
 
 func newImpl(th *core.Thread, root int) (*impl, *model) {
 	x := &impl{th: th}
-	if root == 0 {
+	switch root {
+	case 0:
 		x.ob = &core.SuObject{}
-	} else {
+	case 1:
 		x.ob = core.NewSuRecord()
+	case 2:
+		ob := &core.SuObject{}
+		ob.SetConcurrent() // as if shared with another thread: every method locks
+		x.ob = ob
 	}
 	return x, &model{ob: newMob()}
 }
@@ -833,11 +843,27 @@ func setup() {
 	})
 }
 
+var progress atomic.Int64
+
+// watchdog: the concurrent root takes real locks; a self-deadlock must not hang the check
+func watchdog() {
+	last, since := int64(-1), time.Now()
+	for {
+		time.Sleep(5 * time.Second)
+		if p := progress.Load(); p != last {
+			last, since = p, time.Now()
+		} else if time.Since(since) > 180*time.Second {
+			lib.Infra("no progress for 180 s (deadlock in a locked container operation?)")
+		}
+	}
+}
+
 func run(c *lib.Ctx) {
 	setup()
+	go watchdog()
 	debug.SetGCPercent(200)
 	// depth per root: Object(), Record()
-	depths := lib.Pick(c, []int{4, 3}, []int{5, 5})
+	depths := lib.Pick(c, []int{4, 3, 3}, []int{5, 5, 4})
 	c.Set("events", len(events))
 	c.Set("max_depth", depths)
 	c.Set("observations_per_probe", len(probeLabels))
@@ -886,6 +912,7 @@ func checkSort(c *lib.Ctx, th **core.Thread, list []string) {
 			return cmpVal(want[i], want[j]) < 0
 		})
 		c.Eval(1)
+		progress.Add(1)
 		if e := lib.Try(func() { (*th).Call(sortFns[d], ob) }); e != nil {
 			*th = &core.Thread{}
 			c.Fail("", sortCase{list, d == 1}, "Sort! panicked: %s", lib.PanicText(e))
@@ -980,6 +1007,7 @@ func bfs(c *lib.Ctx, root int, depth int) int {
 				}
 				path := append(append(make([]int, 0, len(base)+1), base...), e)
 				m, msg := runPath(root, path)
+				progress.Add(1)
 				c.Eval(1)
 				c.Transition(1)
 				c.TraceValidated(1)
